@@ -106,7 +106,7 @@ Proof.
     apply tenants_ok_app; [assumption| |reflexivity].
     split; [constructor; [intros []|constructor]|]. split; [discriminate|].
     cbn [t_period t_id t_admins]. unfold two64 in *. lia.
-  - inversion Hh; subst. simpl. apply andb_true_iff in Evb as [_ Ep]. unfold valid_period_u64 in Ep.
+  - inversion Hh; subst. simpl. apply andb_true_iff in Evb as [Evb _]. apply andb_true_iff in Evb as [_ Ep]. unfold valid_period_u64 in Ep.
     rewrite wrap64_small by (unfold two64 in *; lia).
     apply tenants_ok_app; [assumption| |reflexivity].
     split; [constructor; [intros []|constructor]|]. split; [discriminate|].
@@ -282,7 +282,7 @@ Proof.
            split; [assumption|]. split; [assumption|]. exists u0. split; [right; assumption|assumption].
         -- intros tid uid0 Heq. destruct (H2 _ _ Heq) as (Ht & u0 & Hin & Hrest).
            split; [assumption|]. exists u0. split; [right; assumption|assumption].
-    + destruct (negb ((t_method t =? 0) || (t_method t =? 1))); [inversion Hsl; subst; destruct He|].
+    + destruct (negb (payable_method (t_method t))); [inversion Hsl; subst; destruct He|].
       destruct (pay_all (t_method t) (t_id t) (u_denom u) (s_bal s) faults (payout_amounts u)) as [[l'|] faults'] eqn:Ep.
       * destruct (settle_loop t h recs _ faults') as [[s4 f4] g4] eqn:E4.
         inversion Hsl; subst. destruct He as [<-|He].
